@@ -335,6 +335,10 @@ fn stmt_count(stmts: &[Stmt]) -> usize {
 }
 
 /// All programs obtained by deleting one rule or one statement.
+pub fn reductions_pub(p: &Program) -> Vec<Program> {
+    reductions(p)
+}
+
 fn reductions(p: &Program) -> Vec<Program> {
     let mut out = Vec::new();
     for ri in 0..p.rules.len() {
@@ -452,9 +456,12 @@ pub fn run_sem_campaign(prop: &'static str, tier: &str, seed: u64) -> CampaignRe
         timed_out: bool,
         anomalies: Vec<String>,
     }
+    let items: Vec<(&Program, &str)> = programs.iter().map(|pc| (&pc.program, pc.source.as_str())).collect();
+    let builts = pipeline::build_all(&items, Mode::Module);
     let results: Vec<PerProgram> = programs
         .par_iter()
-        .map(|pc| {
+        .zip(builts.into_par_iter())
+        .map(|(pc, built)| {
             let mut pp = PerProgram { index: pc.index, build: Ok(()), findings: vec![], stats: vec![], sample: None, timed_out: false, anomalies: vec![] };
             let rules = match flat::flatten_program(&pc.program) {
                 Ok(r) => r,
@@ -463,7 +470,7 @@ pub fn run_sem_campaign(prop: &'static str, tier: &str, seed: u64) -> CampaignRe
                     return pp;
                 }
             };
-            let built = match pipeline::build_driver(&pc.program, &pc.source, Mode::Module) {
+            let built = match built {
                 Ok(b) => b,
                 Err(BuildError::Rejected(r)) => {
                     pp.build = Err(format!("rejected: {}", r.out.stderr_str().lines().next().unwrap_or("")));
